@@ -196,6 +196,13 @@ def evaluate():
                 bad.setdefault("kind", "%s: the archive is not built from the main component of file %d and its file id" % (wd.tag, mi))
         elif nmain == 1:
             bad.setdefault("kind", "%s: the archive constructor is not called" % wd.tag)
+        if isinstance(built, tuple) and len(built) > 3 and built[0] == "V":
+            for fld in ("templates", "functions"):
+                got_f = built[3].get(fld)
+                if not (isinstance(got_f, tuple) and len(got_f) > 1 and got_f[1] == "desugared-" + fld):
+                    bad.setdefault("desugaring", "%s: the %s of the %s returned are not the desugared ones" % (wd.tag, fld, kind.lower()))
+        else:
+            raise Unsupported("parse_files returns a %r" % (built,))
         if len(wd.desugared_with) != 1 or wd.desugared_with[0] is not reports:
             bad.setdefault("desugaring", "%s: desugaring runs %d time(s)%s" % (wd.tag, len(wd.desugared_with), "" if not wd.desugared_with or wd.desugared_with[0] is reports else ", with a collection other than the one returned"))
     return n, bad
@@ -226,7 +233,7 @@ ASPECTS = {
     "archive-errors": "the errors of a failed archive construction are in the collection returned",
     "library-reports": "the reports of the template library are in the collection returned",
     "definitions": "the definitions of every parsed file are handed to the archive / library constructor",
-    "desugaring": "desugaring is applied once, to what was built, with the collection that is returned",
+    "desugaring": "desugaring is applied once, to what was built, with the collection that is returned; the desugared templates and the filtered functions replace the parsed ones",
 }
 
 
